@@ -1039,3 +1039,29 @@ m('T9-one-level-entries-and-metadata-swapped', 'C18', 'T9', 'tree_flatten_one_le
     children = list(children)""",
   """    children, entries, metadata = flattened
     children = list(children)""")
+m('N5-autoentry-sequence-test-negated', 'C04', 'N5', 'AutoEntry/', 'optree/accessor.py',
+  """        elif issubclass(type, Sequence):
+            path_entry_type = SequenceEntry""",
+  """        elif not issubclass(type, Sequence):
+            path_entry_type = SequenceEntry""")
+m('N5-autoentry-generic-sequence-before-namedtuple', 'C04', 'N5', 'AutoEntry/specific-first', 'optree/accessor.py',
+  """        if is_structseq_class(type):
+            path_entry_type = StructSequenceEntry
+        elif is_namedtuple_class(type):
+            path_entry_type = NamedTupleEntry
+        elif dataclasses.is_dataclass(type):
+            path_entry_type = DataclassEntry
+        elif issubclass(type, Mapping):
+            path_entry_type = MappingEntry
+        elif issubclass(type, Sequence):
+            path_entry_type = SequenceEntry""",
+  """        if issubclass(type, Sequence):
+            path_entry_type = SequenceEntry
+        elif is_structseq_class(type):
+            path_entry_type = StructSequenceEntry
+        elif is_namedtuple_class(type):
+            path_entry_type = NamedTupleEntry
+        elif dataclasses.is_dataclass(type):
+            path_entry_type = DataclassEntry
+        elif issubclass(type, Mapping):
+            path_entry_type = MappingEntry""")
